@@ -66,21 +66,43 @@ fn main() {
     for q in 0..4 { for b in 0..8 { cols.push(1u32 << ((3 - q) * 8 + b)); debug_assert_eq!(cols.len() - 1, bitpos_of_crc_bit(n_bytes, q, b)); } }
     let n = cols.len();
 
-    // shorter frames: the column of bit b in byte 0 of an L-byte message equals the column at distance L from the end
-    let mut shift_checked = 0usize;
-    for l in 1..=n_bytes {
-        let mut m = vec![0u8; l];
-        let z = crc::compute(&m);
-        for b in 0..8 {
-            m[0] = 1 << b;
-            let col = crc::compute(&m) ^ z;
-            m[0] = 0;
-            if col != cols[(n_bytes - l) * 8 + b] {
-                println!("FAIL shift-invariance len={} bit={}", l, b);
-                std::process::exit(1);
+    // shorter frames: the column of bit b in byte p of an L-byte message equals the column at the same distance from the end of
+    // the long message. Checked for EVERY length, EVERY byte position and bit through the real `compute` (16 threads), so
+    // the claim for shorter frames does not rest on the fold structure of `extend` (a word-at-a-time rewrite with a wrong
+    // tail loop keeps byte 0 right and breaks the last bytes of lengths 2, 3 mod 4).
+    let cols_ref = std::sync::Arc::new(cols.clone());
+    let nthreads = 16usize;
+    let mut handles = Vec::new();
+    for t in 0..nthreads {
+        let cols_t = cols_ref.clone();
+        handles.push(std::thread::spawn(move || -> Result<usize, (usize, usize, usize)> {
+            let mut checked = 0usize;
+            let mut l = 1 + t;
+            while l <= n_bytes {
+                let mut m = vec![0u8; l];
+                let z = crc::compute(&m);
+                for p in 0..l {
+                    for b in 0..8 {
+                        m[p] = 1 << b;
+                        let col = crc::compute(&m) ^ z;
+                        m[p] = 0;
+                        if col != cols_t[(n_bytes - l + p) * 8 + b] { return Err((l, p, b)); }
+                        checked += 1;
+                    }
+                }
+                l += nthreads;
             }
-            shift_checked += 1;
-        }
+            Ok(checked)
+        }));
+    }
+    let mut shift_checked = 0usize;
+    let mut bad: Option<(usize, usize, usize)> = None;
+    for h in handles {
+        match h.join().expect("worker") { Ok(c) => shift_checked += c, Err(e) => { if bad.map_or(true, |x| e < x) { bad = Some(e); } } }
+    }
+    if let Some((l, p, b)) = bad {
+        println!("FAIL shift-invariance len={} byte={} bit={}", l, p, b);
+        std::process::exit(1);
     }
 
     // weight 1 and 2
